@@ -322,6 +322,18 @@ def _evaluate(case, env, out):
                     if got != edited:
                         out.violation("C16:redo_in_later_session", _bd(edited, got))
                     project.history.undo()
+                    # ... and the redo alone in a third session (the change comes back from the saved redo list and its File
+                    # object has never been read)
+                    project.close()
+                    project = Project(root, save_history=True)
+                    out.evals += 1
+                    project.history.redo()
+                    got = _read(fp)
+                    if got != edited:
+                        out.violation("C16:redo_in_third_session", _bd(edited, got))
+                    project.history.undo()
+                    if _read(fp) != original:
+                        out.violation("C16:undo_in_third_session", _bd(original, _read(fp)))
             except Exception as e:
                 out.violation("C16:undo_in_later_session_raised:" + type(e).__name__, repr(e)[:200])
         # (8) new contents with a character the declared encoding cannot represent: either the write fails and the file keeps
